@@ -33,6 +33,32 @@ def single_enqueue(F, R, ver):
     R.floor('C05.single-enqueue', '%s enqueue sites' % ver, n, 4)
 
 
+def single_dequeue(F, R, ver):
+    """Entries leave the outstanding queue only where an acknowledgement is processed (pkt_ack_inner), where a
+    send that put nothing on the wire is cancelled (cancel_response) and when the connection's queues are
+    cleared: any other removal frees a window slot although the exchange is still open at the peer."""
+    allowed = {'pkt_ack_inner', 'cancel_response', 'clear_queues'}
+    n = 0
+    for b in F.find(r'^(<)?%s::' % ver):
+        for bi, t, ap in calls_on_field(b, r'VecDeque::<T, A>::(pop_front|pop_back|remove|retain|retain_mut|clear|drain|truncate|split_off|swap_remove_back|swap_remove_front)$', 'inflight'):
+            if 'queues' not in ap:
+                continue
+            n += 1
+            fn = top_fn(b.path).split('::')[-1]
+            R.ob('C05.single-enqueue', '%s|%s|%s(inflight)' % (ver, top_fn(b.path), (callee_name(t) or '').split('::')[-1]), b.path.startswith('%s::shared::MqttShared::' % ver) and fn in allowed,
+                 'an entry is removed from the outstanding queue outside acknowledgement processing: its slot is reused while the peer has not acknowledged it, so more than the limit is in flight', b.loc(bi))
+    # the same through a destructured reference (`let MqttSharedQueues { inflight, .. } = &mut *queues`)
+    for b in F.find(r'^(<)?%s::shared::' % ver):
+        fn = top_fn(b.path).split('::')[-1]
+        for bi, t in b.calls_to(r'VecDeque::<T, A>::(retain|retain_mut|drain|truncate|clear|remove)$'):
+            ty = b.local_ty(op_place(t['args'][0])['l']) if t['args'] and op_place(t['args'][0]) else ''
+            if 'AckType' in ty and fn not in allowed:
+                n += 1
+                R.ob('C05.single-enqueue', '%s|%s|%s(outstanding queue by type)' % (ver, top_fn(b.path), (callee_name(t) or '').split('::')[-1]), False,
+                     'an entry is removed from the outstanding queue outside acknowledgement processing', b.loc(bi))
+    R.floor('C05.single-enqueue', '%s dequeue sites' % ver, n, 3)
+
+
 def pubrec_keeps_slot(F, R, ver):
     """A QoS 2 exchange occupies its window slot until PUBCOMP: on every Ok exit of the PUBREC branch
     of pkt_ack_inner the popped entry has been re-queued."""
@@ -253,6 +279,7 @@ def run(F, R):
     wake_bounded(F, R)
     for ver in ('v3', 'v5'):
         single_enqueue(F, R, ver)
+        single_dequeue(F, R, ver)
         pubrec_keeps_slot(F, R, ver)
         gated(F, R, ver)
         check_then_act(F, R, ver)
